@@ -692,6 +692,18 @@ fn confirm_garbage(run: &Run) {
 pub fn run(run: &'static Run) {
     let thorough = run.thorough();
     start_watchdog(run, Duration::from_secs(if thorough { 60 } else { 30 }));
+    // the honest set-up sequence itself (genesis -> faucet -> seal) must not panic on any network
+    for net in [NetID::Custom02, NetID::Custom08, NetID::Testnet, NetID::Mainnet] {
+        run.transition();
+        if let Err(p) = try_root(net, 0, net != NetID::Mainnet) {
+            run.violation("C09", format!("honest-setup/{:?}/{}", net, p.class()), format!("genesis -> set-up faucet -> seal(None) on {:?} panicked: {}", net, p.msg), json!({"network": format!("{:?}", net)}));
+        }
+        run.validated();
+    }
+    if run.violation_count() > 0 {
+        run.cap_hit("the honest set-up sequence panics; the hostile alphabet cannot be driven from it");
+        return;
+    }
     let deltas: Vec<i8> = if thorough { vec![-128, -127, -1, 0, 1, 127] } else { vec![-128, 127] };
     let mut bases = base_states(thorough);
     let g = genesis_open_node();
